@@ -12,6 +12,9 @@ def run(ctx, prefixes):
     ok, _, _, _ = ctx.mc("H2Relay.tla", "MC_H2Relay_SplitOnlyAtEnqueue.cfg", expect_ok=False)
     if ok:
         raise vlib.Infra("H2Relay mutant SplitOnlyAtEnqueue not detected by the model")
+    ok, _, _, _ = ctx.mc("H2Relay.tla", "MC_H2Relay_DropOnClose.cfg", expect_ok=False)
+    if ok:
+        raise vlib.Infra("H2Relay mutant DropOnClose not detected by the model")
     ctx.mc("H2Hpack.tla", "MC_H2Hpack.cfg")
     binp = ctx.build()
     n = 60 if q else 1500
@@ -48,6 +51,12 @@ def run(ctx, prefixes):
                act("ctl", 0, t="SM", v=16384), act("ctl", 0, t="WU", v=65535), act("ctl", 1, t="WU", v=65535)]},
         {"h": [act("ctl", 0, t="SM", v=20000), act("headers", 3), act("data", 3, 40000), act("data", 3, 20000), act("data", 3, 20000, es=True),
                act("ctl", 0, t="SM", v=16384), act("ctl", 3, t="WU", v=65535), act("ctl", 0, t="WU", v=65535)]},
+        # the sender ends its side of the connection while the relay still holds DATA for the receiver, which then
+        # opens its windows (MC_H2Relay_DropOnClose)
+        {"h": [act("headers", 1), act("data", 1, 40000), act("data", 1, 40000, es=True), act("close"),
+               act("ctl", 0, t="WU", v=65535), act("ctl", 1, t="WU", v=65535)]},
+        {"h": [act("headers", 1), act("headers", 3), act("data", 3, 40000), act("data", 1, 40000), act("headers", 1, es=True), act("close"),
+               act("ctl", 1, t="WU", v=65535), act("ctl", 0, t="WU", v=65535), act("ctl", 3, t="WU", v=65535)]},
     ]
     trace = os.path.join(ctx.work, "h2.ndjson")
     out = ctx.run_vh(binp, ["h2", "--arg", "trace=" + trace], cases=cases, timeout=3000)
